@@ -2685,6 +2685,15 @@ PPL::MIP_Problem::ascii_load(std::istream& s) {
     return false;
   }
 
+  // Drop the constraints of the target (the inherited ones are not owned).
+  for (Constraint_Sequence::const_iterator
+         i = nth_iter(input_cs, inherited_constraints),
+         i_end = input_cs.end(); i != i_end; ++i) {
+    delete *i;
+  }
+  input_cs.clear();
+  inherited_constraints = 0;
+
   Constraint c(Constraint::zero_dim_positivity());
   input_cs.reserve(input_cs_size);
   for (dimension_type i = 0; i < input_cs_size; ++i) {
@@ -2835,6 +2844,7 @@ PPL::MIP_Problem::ascii_load(std::istream& s) {
     return false;
   }
 
+  base.clear();
   for (dimension_type i = 0; i != base_size; ++i) {
     dimension_type base_value;
     if (!(s >> base_value)) {
@@ -2863,6 +2873,7 @@ PPL::MIP_Problem::ascii_load(std::istream& s) {
     return false;
   }
 
+  mapping.clear();
   // The first `mapping' index is never used, so we initialize
   // it pushing back a dummy value.
   if (tableau.num_columns() != 0) {
